@@ -20,6 +20,8 @@ pub enum CEv {
     Up { draw: u32 },
     /// join attempt (no accept) with channel draw
     JoinTry { draw: u32 },
+    /// join attempt whose transmit call is refused by the radio
+    JoinTxFault { draw: u32 },
     /// a long run of unanswered join attempts (the walk over the join channels has state that only
     /// shows after many attempts)
     JoinRun { attempts: u32 },
@@ -170,6 +172,9 @@ fn enabled_events(region: &str, joined: bool) -> Vec<CEv> {
         for k in 0..5 {
             v.push(CEv::JoinOk { kind: k });
         }
+        for d in [0u32, 3, 5] {
+            v.push(CEv::JoinTxFault { draw: d });
+        }
         if fixed {
             v.push(CEv::JoinRun { attempts: 80 });
         }
@@ -277,6 +282,7 @@ impl<const PW: u8, const GAIN: i8> System for ASys<PW, GAIN> {
         let evs: Vec<AEv> = match ev {
             CEv::Up { draw } => vec![AEv::Rng(vec![*draw]), send(None)],
             CEv::JoinTry { draw } => vec![AEv::Rng(vec![0x4242, *draw]), AEv::Join(Script::default())],
+            CEv::JoinTxFault { draw } => vec![AEv::Rng(vec![0x4242, *draw]), AEv::Join(Script { fault_at: Some(0), ..Default::default() })],
             CEv::JoinRun { attempts } => {
                 let mut v = vec![];
                 for i in 0..*attempts {
@@ -354,6 +360,7 @@ impl<const PW: u8, const GAIN: i8> System for Sys<PW, GAIN> {
         let evs: Vec<Ev> = match ev {
             CEv::Up { draw } => vec![Ev::Rng(vec![*draw]), Ev::Cycle { confirmed: false, port: 1, len: 1, rx1: None, rx2: None }],
             CEv::JoinTry { draw } => vec![Ev::Rng(vec![0x4242, *draw]), Ev::JoinCycle { rx1: None, rx2: None }],
+            CEv::JoinTxFault { draw } => vec![Ev::Rng(vec![0x4242, *draw]), Ev::JoinCycleF { rx1: None, rx2: None, fault_at: 0 }],
             CEv::JoinRun { attempts } => {
                 let mut v = vec![];
                 for i in 0..*attempts {
@@ -559,7 +566,7 @@ pub fn run(tier: Tier, replay: Option<&str>) {
         "samples": [{"cfg": serde_json::to_value(&runs[0]).unwrap(), "history": [serde_json::to_value(CEv::Cmd { label: "adr-ch3-only".into(), bytes: cmds::link_adr(15, 15, 8, 0, 1, false).bytes }).unwrap(), serde_json::to_value(CEv::Up { draw: 3 }).unwrap()]}],
         "evaluations": ctx.evals(),
         "distinct_nontrivial": states,
-        "rule": "BFS over channel-plan histories on the real nb and async (ABP: Class A, OTAA: Class C enabled) devices for every region x board (radio max power, antenna gain) x {ABP, OTAA with join-bias settings, ADR back-off pre-loaded}; in every reached state the next uplink / join attempt is expanded once per first RNG draw (0..63 for 72-channel plans, 0..15 for dynamic plans, fair tail afterwards); other events: LinkADRReq (mask / data rate / TX power), NewChannelReq create/delete, DlChannelReq, JoinAccepts with plain / full / minimal / out-of-band / partial-sub-band CFLists (also as re-joins from a joined state), set_datarate for every region-defined rate. 72-channel plans additionally: each of the 72 masks that leave one channel (plus, for 125 kHz channels, the channel 32 above it) enabled, installed by LinkADRReq downlinks, then an uplink for every first RNG draw 0..63. Every TxConfig handed to the radio is judged against band, channel plan + mask snapshot, regional data-rate table and the power bound",
+        "rule": "BFS over channel-plan histories on the real nb and async (ABP: Class A, OTAA: Class C enabled) devices for every region x board (radio max power, antenna gain) x {ABP, OTAA with join-bias settings, ADR back-off pre-loaded}; in every reached state the next uplink / join attempt is expanded once per first RNG draw (0..63 for 72-channel plans, 0..15 for dynamic plans, fair tail afterwards); other events: join attempts whose transmit call the radio refuses, LinkADRReq (mask / data rate / TX power), NewChannelReq create/delete, DlChannelReq, JoinAccepts with plain / full / minimal / out-of-band / partial-sub-band CFLists (also as re-joins from a joined state), set_datarate for every region-defined rate. 72-channel plans additionally: each of the 72 masks that leave one channel (plus, for 125 kHz channels, the channel 32 above it) enabled, installed by LinkADRReq downlinks, then an uplink for every first RNG draw 0..63. Every TxConfig handed to the radio is judged against band, channel plan + mask snapshot, regional data-rate table and the power bound",
         "depth": depth,
         "boards": boards,
         "configurations": runs.len(),
